@@ -40,6 +40,35 @@ Definition days_from_civil (y m d : Z) : Z :=
 
 Definition pow10 (k : Z) : Z := 10 ^ k.
 
+(* the length of a month; the code asks time.Date whether the day survives normalisation *)
+Definition leap (y : Z) : bool := ((y mod 4 =? 0) && negb (y mod 100 =? 0)) || (y mod 400 =? 0).
+Definition days_in_month (y m : Z) : Z :=
+  if (m =? 2) then (if leap y then 29 else 28)
+  else if (m =? 4) || (m =? 6) || (m =? 9) || (m =? 11) then 30 else 31.
+
+(* the optional fraction: '.' and 1 to 9 digits, ended by the zone *)
+Definition parse_frac (term0 : term) (r6 : str) : option (Z * term * str) :=
+  if term_is term0 46%N then
+    let '(fs, t2, r7) := read_until end_frac_t r6 in
+    if term_neg t2 || (9 <? zlen fs) then None
+    else match parse_num fs with
+         | None => None
+         | Some n => Some (n * pow10 (9 - zlen fs), t2, r7)
+         end
+  else Some (0, term0, r6).
+
+(* the zone: 'Z' / 'z' as the last character, or a numeric offset hh:mm that ends the string *)
+Definition parse_zone (term1 : term) (r8 : str) : option Z :=
+  if term_is term1 43%N || term_is term1 45%N then
+    match num_field colon_t false 2 2 0 99 r8 with None => None | Some (oh, _, r9) =>
+    match num_field none_t true 2 2 0 59 r9 with None => None | Some (om, tm, _) =>
+      match tm with
+      | TEof => let secs := (om + oh * 60) * 60 in Some (if term_is term1 43%N then - secs else secs)
+      | _ => None   (* a NUL / non-ASCII byte stopped the scanner before the end *)
+      end
+    end end
+  else match r8 with [] => Some 0 | _ => None end.   (* 'Z' / 'z' must be the last character *)
+
 Definition parse_rfc3339 (x : str) : option Z :=
   match num_field hyphen_t false 4 4 0 9999 x with None => None | Some (year, _, r1) =>
   match num_field hyphen_t false 2 2 1 12 r1 with None => None | Some (month, _, r2) =>
@@ -47,25 +76,9 @@ Definition parse_rfc3339 (x : str) : option Z :=
   match num_field colon_t false 1 2 0 23 r3 with None => None | Some (hour, _, r4) =>
   match num_field colon_t false 2 2 0 59 r4 with None => None | Some (minute, _, r5) =>
   match num_field end_sec_t false 2 2 0 60 r5 with None => None | Some (second, term0, r6) =>
-  let frac :=
-    if term_is term0 46%N then
-      let '(fs, t2, r7) := read_until end_frac_t r6 in
-      if term_neg t2 || (9 <? zlen fs) then None
-      else match parse_num fs with
-           | None => None
-           | Some n => Some (n * pow10 (9 - zlen fs), t2, r7)
-           end
-    else Some (0, term0, r6) in
-  match frac with None => None | Some (nanos, term1, r8) =>
-  let off :=
-    if term_is term1 43%N || term_is term1 45%N then
-      match num_field colon_t false 2 2 0 99 r8 with None => None | Some (oh, _, r9) =>
-      match num_field none_t true 2 2 0 59 r9 with None => None | Some (om, _, _) =>
-        let secs := (om + oh * 60) * 60 in
-        Some (if term_is term1 43%N then - secs else secs)
-      end end
-    else Some 0 in
-  match off with None => None | Some tz =>
+  match parse_frac term0 r6 with None => None | Some (nanos, term1, r8) =>
+  match parse_zone term1 r8 with None => None | Some tz =>
+    if days_in_month year month <? day then None else   (* a day the month does not have *)
     Some ((days_from_civil year month day * 86400 + hour * 3600 + minute * 60 + second + tz) * 1000000000 + nanos)
   end end end end end end end end.
 
